@@ -13,6 +13,10 @@ RULE = (
     "D[j] and the window rebuilt from its definition (Kaiser: kaiser(L+1, alpha(psll)*pi)[:-1]); XX/YY/XY/M2 within "
     "the rounding budget, S12==(sum w)^2, S2==sum w^2 (rtol 1e-12), result plan fields == analyzer.plan(). Band: every "
     "per-bin field equals the masked field of the unrestricted analysis; an empty band raises ValueError. "
+    "One configuration in five uses a user-written scheduler whose bins share (L,K) but not their starts; numeric arguments "
+    "and single-bin requests are also spelled as numpy float32/float64/int scalars (the request is the value the scalar "
+    "denotes); a `sweep` part verifies several single-bin results of one analyzer after all calls were made; order 0 uses "
+    "the centred-scale budget of C01. "
     "Non-trivial: plan with >=3 distinct L and a Kaiser window, or a band keeping a strict non-empty subset, or a "
     "single-bin request with K>=2; distinct by case hash."
 )
